@@ -209,6 +209,16 @@ def gen_case(rng, allow_int=False, allow_remove=True, nops=None, big=1):
     start = 1 if rng.random() < 0.6 else rng.choice([2, 3, 5, 16, 100, 0x1000, 0xF000])
     ns = rng.choice([0, 1, 1, 2, 2, 3, 4])
     services = [rand_sdef(rng, state, "s%02d" % i) for i in range(ns)]
+    # one Characteristic TEMPLATE object (carrying non-CCCD descriptors) declared in several services
+    if ns >= 2 and rng.random() < 0.4:
+        cd = rand_cdef(rng, state)
+        cd["description"] = cd["description"] if cd["description"] is not None else rng.choice(TEXTS)
+        if rng.random() < 0.6:
+            cd["descriptors"] = cd["descriptors"] + [rng.choice([{"k": "report", "old": False},
+                                                                 {"k": "generic", "old": False, "uuid": {"t": "i16", "v": 0x2904}, "value": "0102"}])]
+        cd["shared"] = 0
+        for sd in rng.sample(services, rng.choice([2, 2, min(3, ns)])):
+            sd["chars"].insert(rng.randrange(len(sd["chars"]) + 1), dict(cd))
     shapes = [shape_of(s) for s in services]
     ops = []
     nops = rng.choice([0, 0, 1, 2, 3, 4, 5, 6]) if nops is None else nops
@@ -250,7 +260,8 @@ def gen_case(rng, allow_int=False, allow_remove=True, nops=None, big=1):
             ops.append({"op": "remove", "i": i})
             del shapes[i]
             removed = True
-    case = {"start": start, "explicit_start": rng.random() < 0.5, "services": services, "ops": ops}
+    case = {"start": start, "explicit_start": rng.random() < 0.5, "services": services, "ops": ops,
+            "again": [start + rng.choice([1, 2, 7, 100]), start]}
     finish_case(case, rng)
     return case
 
@@ -432,9 +443,10 @@ def c_case(case, res):
         reimp, code = "(Some (%s, %s, %s))" % (clist([c_jsvc(s) for s in re_["export"]]),
                                                clist(["(%d, %d, %d)" % (k, CLS_CODE[c], h) for k, c, h in re_["db"]]),
                                                c_look(case, re_["lookups"])), 0
-    return "(mkCase %d %s %s %s %s %s %s %s %s %d)" % (
+    return "(mkCase %d %s %s %s %s %s %s %s %s %s %d)" % (
         case["start"], clist([c_sdef(s) for s in case["services"]]), clist([c_op(o) for o in case["ops"]]),
-        c_light(res["steps"][0]), clist([c_light(l) for l in res["steps"][1:]]),
+        c_light(res["steps"][0]), clist(["(%d, %s)" % (a["start"], c_light(a["light"])) for a in res.get("again", [])]),
+        clist([c_light(l) for l in res["steps"][1:]]),
         clist(["(%d, %s)" % (e["key"], c_attr(e)) for e in res["final"]]),
         c_look(case, res["lookups"]), clist([c_jsvc(s) for s in res["export"]]), reimp, code)
 
@@ -681,7 +693,7 @@ def check_export(res):
 def oracle(ctx, case, res, tag):
     """Returns number of (non-known) violations recorded."""
     n = 0
-    small = {"start": case["start"], "services": case["services"], "ops": case["ops"],
+    small = {"start": case["start"], "services": case["services"], "ops": case["ops"], "again": case.get("again", []),
              "explicit_start": case.get("explicit_start", False), "queries": case["queries"], "tag": tag}
     if "exc" in res and res.get("stage") != "reimport":
         n += ctx.violation("%s raised %s (%s)" % (res["stage"], res["exc"], res.get("msg", "")), small,
@@ -706,6 +718,24 @@ def oracle(ctx, case, res, tag):
             removed = True
         shapes_hist.append(cur)
         removed_hist.append(removed)
+    # further instances of the same class: own objects, correct layout at their start handle,
+    # and the FIRST instance untouched (database, every attribute field, JSON export)
+    for a in res.get("again", []):
+        bad, gaps = check_layout(a["start"], a["light"], shapes_hist[0], True)
+        if bad or gaps:
+            n += ctx.violation("second instance of the profile class (start handle %d): %s" % (a["start"], (bad + gaps)[0]), small,
+                               expected="same layout from its own start handle", observed={"problems": (bad + gaps)[:5], "second": a["light"]})
+            return n
+        if not a["disjoint"]:
+            n += ctx.violation("two instances of one profile class share attribute objects", small,
+                               expected="every instance has its own objects", observed={"second_start": a["start"]})
+            return n
+        if not a["first_same"]:
+            stale = [[k, h] for k, _c, h in a["first_light"]["db"] if k != h]
+            n += ctx.violation("building a second instance (start handle %d) changed the first one%s" % (
+                               a["start"], (": attribute registered at %d now carries handle %d" % tuple(stale[0])) if stale else " (fields / export differ)"), small,
+                               expected="first instance untouched", observed={"first_now": a["first_light"], "first_before": res["steps"][0]})
+            return n
     for k, light in enumerate(res["steps"]):
         bad, gaps = check_layout(case["start"], light, shapes_hist[k], not removed_hist[k])
         where = "after the build" if k == 0 else "after operation %d (%s)" % (k - 1, case["ops"][k - 1]["op"])
@@ -800,6 +830,7 @@ def run(ctx):
         c = w["case"]
         if "queries" not in c:
             finish_case(c, rng)
+        c.setdefault("again", [c["start"] + 7, c["start"]])
         cases.append(c); tags.append("corpus:" + fn)
     n_main = 2500 if ctx.thorough else 260
     for i in range(n_main):
@@ -889,7 +920,7 @@ def run(ctx):
 
 
 def strip_case(c):
-    return {k: c[k] for k in ("start", "explicit_start", "services", "ops", "queries") if k in c}
+    return {k: c[k] for k in ("start", "explicit_start", "services", "ops", "queries", "again") if k in c}
 
 
 def fill_coverage(ctx, cases, results, tags):
